@@ -401,3 +401,42 @@ Print Assumptions converge_data_resent.
 Print Assumptions converge_data_waiting_synack.
 Print Assumptions stale_syn_stall_reachable.
 Print Assumptions stale_syn_stall.
+
+(* ------------------------------------------------------------------ *)
+(* a lost SYNACK with a client that never transmits again              *)
+(* ------------------------------------------------------------------ *)
+Definition silent_ev (e : hevent) : Prop := e <> HClientData.
+
+Definition inv_silent (st : hsys) : Prop :=
+  cl_phase (h_c st) = CDone /\ h_ab st = [] /\ h_ba st = [] /\
+  (sv_phase (h_s st) = SWaitSynAck \/ sv_phase (h_s st) = SWaitSyn).
+
+Lemma inv_silent_step : forall st ev st',
+  inv_silent st -> silent_ev ev -> hstep st ev = Some st' -> inv_silent st'.
+Proof.
+  intros [c s ab ba syns] ev st' (Hc & Hab & Hba & Hs) Hev H.
+  cbn [h_c h_s h_ab h_ba] in *. subst ab ba.
+  destruct ev; cbn [hstep h_c h_s h_ab h_ba h_syns_ab] in H.
+  - unfold client_start in H. rewrite Hc in H. injection H as <-. repeat split; assumption.
+  - unfold client_timeout in H. rewrite Hc in H. injection H as <-. repeat split; assumption.
+  - injection H as <-. repeat split; try assumption. cbn [h_s]. unfold server_timeout.
+    destruct Hs as [Hs | Hs]; rewrite Hs; cbn; auto.
+  - discriminate.
+  - discriminate.
+  - exfalso. apply Hev. reflexivity.
+Qed.
+
+Theorem lost_synack_silent_stall : forall evs st st',
+  inv_silent st -> Forall silent_ev evs -> hrun st evs = Some st' -> inv_silent st'.
+Proof.
+  induction evs as [|ev evs IH]; intros st st' HI HF H; cbn [hrun] in H.
+  - injection H as <-. assumption.
+  - inversion HF as [|? ? Hev HF']; subst.
+    destruct (hstep st ev) as [st1|] eqn:E; [|discriminate].
+    eapply IH; [eapply inv_silent_step; eassumption | assumption | eassumption].
+Qed.
+
+Theorem lost_synack_silent_reachable :
+  hrun (hinit 20 [] []) [HStart; HAB HDeliver; HBA HDeliver; HAB HDrop]
+    = Some (mk_hsys (mk_client CDone 20) (mk_server SWaitSynAck 20 false) [] [] [20]).
+Proof. vm_compute. reflexivity. Qed.
